@@ -25,6 +25,8 @@
          or ClientStats.CoalesceCount is not the sum of the duplicates
       5  a permanently stalled subscription did not end with an error, or
          another one did
+         or a subscriber that starts after everything is over (its snapshot
+         comes straight from the cache) sees a duplicate count
       6  a live subscriber did not converge: replaying its responses does not
          give the cache's content on the paths it selects, or an update does
          not carry the newest value. *)
@@ -40,10 +42,11 @@ Record case := mkCase8 {
   k_streams : list (list resp);
   k_ended : list bool;
   k_dump : list (path * (Z * Z));
-  k_deq : list (list (nat * nat));          (* per subscriber: (duplicates, queue length) at every dequeue *)
+  k_deq : list (list (nat * nat));          (* per subscriber: (duplicates, queue length) at every dequeue of phase 2 *)
   k_coal : list nat;                        (* ClientStats.CoalesceCount at the end (live subscribers) *)
   k_returned : bool;                        (* every write returned within 5 s *)
   k_bad : bool;
+  k_late : bool;                            (* the last subscriber starts after everything else is over *)
 }.
 
 (** ** Model side: the schedule of the scenario *)
@@ -206,17 +209,28 @@ Fixpoint finish (stall : list nat) (i : nat) (st : state) (lg : deqlog) : option
 Definition pair_eqb (a b : nat * nat) : bool := Nat.eqb (fst a) (fst b) && Nat.eqb (snd a) (snd b).
 
 Definition model_side (c : case) : list (nat * N) :=
-  let n := List.length (k_subs c) in
+  let nall := List.length (k_subs c) in
+  let n := if k_late c then Nat.pred nall else nall in
   match pre_writes (init 1 (k_subs c)) (k_pre c) with
   | None => [(0%nat, 1%N)]
   | Some st0 =>
-      match subscribe_all c 0 n st0 (repeat [] n) with
+      match subscribe_all c 0 n st0 (repeat [] nall) with
       | None => [(1%nat, 1%N)]
       | Some (st1, lg1) =>
-          match phase2 c 0 (k_ops c) st1 lg1 with
+          (* the dequeue log starts with phase 2 (the only part that is a known schedule) *)
+          match phase2 c 0 (k_ops c) st1 (repeat [] nall) with
           | inr k => [((10 + k)%nat, 1%N)]
           | inl (st2, lg2) =>
-              match finish (k_stall c) 0 st2 lg2 with
+              match match finish (k_stall c) 0 st2 lg2 with
+                    | Some (st3, lg3) =>
+                        if k_late c
+                        then match subscribe_all c n 1 st3 lg3 with
+                             | Some (st4, _) => Some (st4, lg3)   (* its dequeues are not logged *)
+                             | None => None
+                             end
+                        else Some (st3, lg3)
+                    | None => None
+                    end with
               | None => [(2%nat, 1%N)]
               | Some (st3, lg3) =>
                   if list_eqb (list_eqb resp_eqb) (map s_sent (st_subs st3)) (k_streams c)
@@ -280,10 +294,12 @@ Definition spec_sub (c : case) (i : nat) (qu : list path * bool) : list (nat * N
        let ph2 := if snd qu then after_sync rs else after_sync rs in
        let paths := dedup (flat_map upd_path (map fst (k_ops c)) ++ upd_paths ph2) in
        (* deletes re-create leaves: the walk-free count only holds without them *)
-       (if has_delete c then []
+       (if has_delete c || (k_late c && Nat.eqb (S i) (List.length (k_subs c))) then []
         else if forallb (fun p => Nat.eqb (sum_dups p ph2) (offers c (fst qu) p)) paths
              then [] else [(i, 4%N)])
        ++ (if Nat.eqb (total_dups rs) (nth i (k_coal c) 0%nat) then [] else [(i, 4%N)])
+       ++ (if k_late c && Nat.eqb (S i) (List.length (k_subs c)) && negb (Nat.eqb (total_dups rs) 0)
+           then [(i, 4%N)] else [])
        ++ (if forallb (fun p =>
                  let m := existsb (fun q => covers q p) (fst qu) in
                  negb m
